@@ -118,6 +118,21 @@ func init() {
 				}
 				return ""
 			})
+			// atoms of arbitrary text: every name over a character alphabet up to a length, in every kind of position
+			type at struct{ nc, nlen int }
+			ats := []at{{27, 2}, {12, 3}}
+			if c.tier == "thorough" {
+				ats = []at{{27, 3}, {12, 4}}
+			}
+			tmplA, err := os.ReadFile(root + "/spec/AtomText_T.cfg")
+			if err != nil {
+				infra("%v", err)
+			}
+			for _, a := range ats {
+				ar := c.mcHolds("AtomText", strings.NewReplacer("@NC@", strconv.Itoa(a.nc), "@NLEN@", strconv.Itoa(a.nlen)).Replace(string(tmplA)), tlcOpts{})
+				ac, ares := c.replay("roundtrip", ar.cases, replayOpts{chunk: 64, opts: map[string]string{"seed": strconv.FormatInt(c.seed, 10), "rounds": "1"}})
+				c.judge("roundtrip", ac, ares, func(cs, res map[string]J) string { in, _ := res["input"].(string); return in })
+			}
 			// the writer against the grammar: what was written, cut into tokens by the real lexer, must denote the term under the
 			// table in force (Syntax.tla), independently of what the real reader makes of it
 			every := 8
